@@ -1,21 +1,27 @@
 // h_C08.cpp — harness for C08: GPFPrediction / GPFCorrection wrapping Gaussian
-// steps (KF, UKF, SUKF) over LTI models, run over a multi-step history on the two
+// steps (KF, additive UKF, SUKF), run over a multi-step history on the two
 // persistent buffers of a particle filter (predict: corr -> pred, correct: pred -> corr).
 //
-// Operands: F, Q (prediction model), H, R (measurement model), Ft, Qt (transition
-// model of the correction step; for tkind=cauchy Ft is A; for tkind=wna they are the
-// closed-form matrices and the library's WhiteNoiseAcceleration(TwoD, T, q) is used,
-// wna = [T q]), c_state/c_mean/c_cov/c_lw (corrected buffer = previous set),
-// p_state/p_mean/p_cov/p_lw (content of the predicted buffer on entry),
-// ys (m x steps), word mv (validity of measure() per step), word lok (scripted validity
-// of the likelihood model per step), int seed, scale (1 x 1).
-// meta: tkind = lingauss | wna | cauchy, wrap = kf | ukf | sukf.
+// Operands: F, Q (LTI prediction model); measurement function of C05's family
+// h(x) = H x + b (+ g sin(G x) | + g (G x)(G2 x)), hkind 0/1/2, noise R; Ft, Qt (transition
+// model of the correction step: tkind lingauss = harness LTI model, cauchy = harness density
+// with A = Ft, wna1/wna2/wna3 = the library's WhiteNoiseAcceleration(OneD/TwoD/ThreeD, T, q),
+// wna = [T q], Ft/Qt its closed form); c_* (corrected buffer = previous set), p_* (content of
+// the predicted buffer on entry); ys (m x steps); per step words mv pv iv cv (validity returned
+// by measure / predictedMeasure / innovation / getNoiseCovarianceMatrix of the measurement
+// model), lok (scripted validity of the likelihood model), skpp skgp skpc skgc (skip flags of
+// PFPrediction, GaussianPrediction, PFCorrection, GaussianCorrection); int seed; scale.
+// meta: wrap = kf | ukf | sukf, likkind = gaussian (bfl::GaussianLikelihood) | indep (a
+// likelihood model that does not consult the measurement model's validity), optional int
+// badlik = +1 / -1 (the likelihood model returns one value too many / too few).
 //
-// The draws of GPFCorrection are logged by wrapping the protected
-// gaussian_random_sample_ in a subclass; they are also compared with a mirror
-// mt19937_64(seed) + normal_distribution(0,1).
+// The draws of GPFCorrection are logged by wrapping the protected gaussian_random_sample_ in
+// a subclass (and compared with a mirror mt19937_64(seed) + normal_distribution(0,1)); the
+// same subclass observes the library's square-root factor by feeding unit vectors through
+// gaussian_random_sample_ into sampleFromProposal(0, P).
 #define VF_MAIN
 #include "common.hpp"
+#include <BayesFilters/AdditiveMeasurementModel.h>
 #include <BayesFilters/GPFCorrection.h>
 #include <BayesFilters/GPFPrediction.h>
 #include <BayesFilters/GaussianLikelihood.h>
@@ -34,15 +40,48 @@
 using namespace bfl;
 using namespace Eigen;
 
-struct Shared { MatrixXd y; bool meas_valid = true; bool lik_ok = true; };
+struct Shared { MatrixXd y; bool mv = true, pv = true, iv = true, cv = true, lik_ok = true; long badlik = 0; };
 
+// C05's family of measurement functions
+struct Family {
+    long kind = 0; MatrixXd H, G, G2, b, g;
+    MatrixXd eval(const Ref<const MatrixXd>& X) const {
+        MatrixXd out = (H * X).colwise() + b.col(0);
+        if (kind == 1) out.array() += ((G * X).array().sin()).colwise() * g.col(0).array();
+        else if (kind == 2) out.array() += (((G * X).array()).colwise() * g.col(0).array()) * (G2 * X).array();
+        return out;
+    }
+};
+
+static std::pair<bool, Data> innov(bool ok, const Data& pred, const Data& meas) {
+    MatrixXd i = -(any::any_cast<MatrixXd>(pred).colwise() - any::any_cast<MatrixXd>(meas).col(0));
+    return std::make_pair(ok, Data(std::move(i)));
+}
+
+// linear model for KFCorrection (hkind 0, b = 0)
 struct ServedLTI : public LTIMeasurementModel {
     const Shared* sh_;
     ServedLTI(const MatrixXd& H, const MatrixXd& R, const Shared* sh) : LTIMeasurementModel(H, R), sh_(sh) {}
     bool freeze(const Data&) override { return true; }
-    std::pair<bool, Data> measure(const Data&) const override { return std::make_pair(sh_->meas_valid, Data(sh_->y)); }
+    std::pair<bool, Data> measure(const Data&) const override { return std::make_pair(sh_->mv, Data(sh_->y)); }
+    std::pair<bool, Data> predictedMeasure(const Ref<const MatrixXd>& X) const override { MatrixXd p = H_ * X; return std::make_pair(sh_->pv, Data(std::move(p))); }
+    std::pair<bool, Data> innovation(const Data& p, const Data& m) const override { return innov(sh_->iv, p, m); }
+    std::pair<bool, MatrixXd> getNoiseCovarianceMatrix() const override { return std::make_pair(sh_->cv, R_); }
     VectorDescription getMeasurementDescription() const override { return VectorDescription(H_.rows()); }
     VectorDescription getInputDescription() const override { return VectorDescription(H_.cols(), 0, H_.rows()); }
+};
+
+// additive (possibly nonlinear) model for UKFCorrection / SUKFCorrection
+struct ServedFamily : public AdditiveMeasurementModel {
+    Family f; MatrixXd R; const Shared* sh_;
+    ServedFamily(const Family& f_, const MatrixXd& R_, const Shared* sh) : f(f_), R(R_), sh_(sh) {}
+    bool freeze(const Data&) override { return true; }
+    std::pair<bool, Data> measure(const Data&) const override { return std::make_pair(sh_->mv, Data(sh_->y)); }
+    std::pair<bool, Data> predictedMeasure(const Ref<const MatrixXd>& X) const override { MatrixXd p = f.eval(X); return std::make_pair(sh_->pv, Data(std::move(p))); }
+    std::pair<bool, Data> innovation(const Data& p, const Data& m) const override { return innov(sh_->iv, p, m); }
+    std::pair<bool, MatrixXd> getNoiseCovarianceMatrix() const override { return std::make_pair(sh_->cv, R); }
+    VectorDescription getMeasurementDescription() const override { return VectorDescription(f.H.rows()); }
+    VectorDescription getInputDescription() const override { return VectorDescription(f.H.cols(), 0, f.H.rows()); }
 };
 
 // LTI state model; the transition density is the linear-Gaussian one or the
@@ -59,12 +98,28 @@ struct LTI : public LTIStateModel {
     }
 };
 
+static std::pair<bool, VectorXd> resize_lik(const Shared* sh, std::pair<bool, VectorXd> r) {
+    if (sh->badlik != 0 && r.first) { VectorXd v = r.second; const long k = v.size(); v.conservativeResize(k + sh->badlik); if (sh->badlik > 0) v(k) = 0.5; r.second = v; }
+    return r;
+}
+// bfl::GaussianLikelihood behind a scripted validity
 struct ScriptedLik : public GaussianLikelihood {
     const Shared* sh_;
     ScriptedLik(double scale, const Shared* sh) : GaussianLikelihood(scale), sh_(sh) {}
     std::pair<bool, VectorXd> likelihood(const MeasurementModel& mm, const Ref<const MatrixXd>& states) override {
         if (!sh_->lik_ok) return std::make_pair(false, VectorXd::Zero(1));
-        return GaussianLikelihood::likelihood(mm, states);
+        return resize_lik(sh_, GaussianLikelihood::likelihood(mm, states));
+    }
+};
+// a likelihood model of its own: scale * N(y - h(x); 0, R), whatever the measurement model says about validity
+struct IndepLik : public LikelihoodModel {
+    Family f; MatrixXd R; double scale; const Shared* sh_;
+    IndepLik(const Family& f_, const MatrixXd& R_, double s, const Shared* sh) : f(f_), R(R_), scale(s), sh_(sh) {}
+    std::pair<bool, VectorXd> likelihood(const MeasurementModel&, const Ref<const MatrixXd>& states) override {
+        if (!sh_->lik_ok) return std::make_pair(false, VectorXd::Zero(1));
+        MatrixXd i = -(f.eval(states).colwise() - sh_->y.col(0));
+        VectorXd l = scale * utils::multivariate_gaussian_density(i, VectorXd::Zero(i.rows()), R);
+        return resize_lik(sh_, std::make_pair(true, l));
     }
 };
 
@@ -77,13 +132,32 @@ struct LoggedGPF : public GPFCorrection {
         gaussian_random_sample_ = [this] { double z = inner_(); zlog.push_back(z); return z; };
     }
     double proposal(const VectorXd& x, const VectorXd& m, const MatrixXd& P) { return evaluateProposal(x, m, P); }
+    // the library's square-root factor of P: column j = sampleFromProposal(0, P) with the draws e_j
+    MatrixXd observed_sqrt(const MatrixXd& P) {
+        const long n = P.rows();
+        MatrixXd L(n, n);
+        std::function<double()> keep = gaussian_random_sample_;
+        for (long j = 0; j < n; j++) {
+            long cnt = 0;
+            gaussian_random_sample_ = [&cnt, j] { return (cnt++ == j) ? 1.0 : 0.0; };
+            L.col(j) = sampleFromProposal(VectorXd::Zero(n), P);
+        }
+        gaussian_random_sample_ = keep;
+        return L;
+    }
 };
+
+static Family family(const vf::Case& c) {
+    Family f; f.kind = c.mi("hkind", 0); f.H = c.mat("H"); f.G = c.mat("G"); f.G2 = c.mat("G2"); f.b = c.mat("b"); f.g = c.mat("g");
+    return f;
+}
 
 static std::unique_ptr<StateModel> make_trans(const vf::Case& c) {
     const std::string k = c.m("tkind", "lingauss");
-    if (k == "wna") {
+    if (k.substr(0, 3) == "wna") {
         const MatrixXd& w = c.mat("wna");
-        return std::unique_ptr<StateModel>(new WhiteNoiseAcceleration(WhiteNoiseAcceleration::Dim::TwoD, w(0, 0), w(0, 1)));
+        const WhiteNoiseAcceleration::Dim d = k == "wna1" ? WhiteNoiseAcceleration::Dim::OneD : (k == "wna3" ? WhiteNoiseAcceleration::Dim::ThreeD : WhiteNoiseAcceleration::Dim::TwoD);
+        return std::unique_ptr<StateModel>(new WhiteNoiseAcceleration(d, w(0, 0), w(0, 1)));
     }
     return std::unique_ptr<StateModel>(new LTI(c.mat("Ft"), c.mat("Qt"), k == "cauchy"));
 }
@@ -99,8 +173,14 @@ static std::unique_ptr<GaussianCorrection> make_gc(const vf::Case& c, const Shar
     const std::string w = c.m("wrap", "kf");
     if (w == "kf") return std::unique_ptr<GaussianCorrection>(new KFCorrection(std::unique_ptr<LinearMeasurementModel>(new ServedLTI(c.mat("H"), c.mat("R"), sh))));
     const MatrixXd& ut = c.mat("ut");
-    if (w == "ukf") return std::unique_ptr<GaussianCorrection>(new UKFCorrection(std::unique_ptr<AdditiveMeasurementModel>(new ServedLTI(c.mat("H"), c.mat("R"), sh)), ut(0, 0), ut(0, 1), ut(0, 2)));
-    return std::unique_ptr<GaussianCorrection>(new SUKFCorrection(std::unique_ptr<AdditiveMeasurementModel>(new ServedLTI(c.mat("H"), c.mat("R"), sh)), ut(0, 0), ut(0, 1), ut(0, 2), c.mat("H").rows(), true));
+    std::unique_ptr<AdditiveMeasurementModel> mm(new ServedFamily(family(c), c.mat("R"), sh));
+    if (w == "ukf") return std::unique_ptr<GaussianCorrection>(new UKFCorrection(std::move(mm), ut(0, 0), ut(0, 1), ut(0, 2)));
+    return std::unique_ptr<GaussianCorrection>(new SUKFCorrection(std::move(mm), ut(0, 0), ut(0, 1), ut(0, 2), c.mat("H").rows(), true));
+}
+
+static std::unique_ptr<LikelihoodModel> make_lik(const vf::Case& c, const Shared* sh, double scale) {
+    if (c.m("likkind", "gaussian") == "indep") return std::unique_ptr<LikelihoodModel>(new IndepLik(family(c), c.mat("R"), scale, sh));
+    return std::unique_ptr<LikelihoodModel>(new ScriptedLik(scale, sh));
 }
 
 static void fill(ParticleSet& ps, const vf::Case& c, const std::string& p) {
@@ -114,6 +194,10 @@ static void out_set(const std::string& p, const ParticleSet& ps) {
     vf::out_int(p + "_components", ps.components);
     vf::out_mat(p + "_state", ps.state()); vf::out_mat(p + "_mean", ps.mean());
     vf::out_mat(p + "_cov", ps.covariance()); vf::out_mat(p + "_lw", ps.weight());
+}
+static bool flag(const vf::Case& c, const std::string& w, long k, bool dflt) {
+    const std::vector<std::string>& v = c.word(w);
+    return (long)v.size() > k ? v[k] != "0" : dflt;
 }
 
 // kinds gpf_fresh / gpf_moved: lifetime of valid_likelihood_ and of the random source
@@ -181,16 +265,24 @@ int main() {
         if (c.kind == "gpf_fresh" || c.kind == "gpf_moved") { lifetime_case(c); continue; }
         const long n = c.mi("n"), N = c.mi("N"), steps = c.mi("steps");
         const MatrixXd& ys = c.mat("ys");
-        const std::vector<std::string>& mv = c.word("mv");
-        const std::vector<std::string>& lok = c.word("lok");
         const unsigned seed = (unsigned)c.integer("seed");
         const double scale = c.mat("scale")(0, 0);
         Shared sh;
+        sh.badlik = c.has_int("badlik") ? c.integer("badlik") : 0;
+#ifdef NDEBUG
+        // a likelihood vector that is too short makes GPFCorrection.cpp:129 read past its end: only run where Eigen's
+        // bounds assertions are compiled in (the case documents the length premise of C08_weight_formula)
+        if (sh.badlik < 0) { vf::out_begin(c.id); vf::out_int("skipped_ndebug", 1); vf::out_end(); continue; }
+#endif
         ParticleSet pred(N, n), corr(N, n);
         fill(pred, c, "p"); fill(corr, c, "c");
 
-        GPFPrediction gpf_pred(make_gp(c));
-        LoggedGPF gpf_corr(std::unique_ptr<LikelihoodModel>(new ScriptedLik(scale, &sh)), make_gc(c, &sh), make_trans(c), seed);
+        std::unique_ptr<GaussianPrediction> gp = make_gp(c);
+        GaussianPrediction* gp_raw = gp.get();
+        std::unique_ptr<GaussianCorrection> gc = make_gc(c, &sh);
+        GaussianCorrection* gc_raw = gc.get();
+        GPFPrediction gpf_pred(std::move(gp));
+        LoggedGPF gpf_corr(make_lik(c, &sh, scale), std::move(gc), make_trans(c), seed);
         // the wrapped steps and the transition model, constructed separately
         std::unique_ptr<GaussianPrediction> sep_gp = make_gp(c);
         std::unique_ptr<GaussianCorrection> sep_gc = make_gc(c, &sh);
@@ -202,7 +294,16 @@ int main() {
         vf::out_begin(c.id);
         for (long k = 0; k < steps; k++) {
             const std::string s = std::to_string(k);
-            sh.y = ys.col(k); sh.meas_valid = mv[k] != "0"; sh.lik_ok = lok[k] != "0";
+            sh.y = ys.col(k);
+            sh.mv = flag(c, "mv", k, true); sh.pv = flag(c, "pv", k, true); sh.iv = flag(c, "iv", k, true); sh.cv = flag(c, "cv", k, true);
+            sh.lik_ok = flag(c, "lok", k, true);
+            const bool skpp = flag(c, "skpp", k, false), skgp = flag(c, "skgp", k, false), skpc = flag(c, "skpc", k, false), skgc = flag(c, "skgc", k, false);
+            { vf::Entry e("skip");
+              gp_raw->skip("prediction", skgp); sep_gp->skip("prediction", skgp);
+              gpf_pred.skip("prediction", skpp);
+              if (!skpp && skgp) gp_raw->skip("prediction", true);      // PFPrediction::skip resets the shared state-model flags
+              gc_raw->skip(skgc); sep_gc->skip(skgc);
+              gpf_corr.skip(skpc); }
 
             // ---- prediction: corr -> pred
             ParticleSet corr_before(corr), pred_before(pred);
@@ -240,13 +341,18 @@ int main() {
             for (long j = 0; j < nz && j < n * N; j++) z(j % n, j / n) = gpf_corr.zlog[j];
             for (long j = 0; j < nz; j++) { double m = mirror_dist(mirror_gen); mirror_ok = mirror_ok && std::memcmp(&m, &gpf_corr.zlog[j], sizeof m) == 0; }
             vf::out_mat("z" + s, z);
-            if (ok) {
+            if (ok && !skpc) {
                 // the implementation's own transition and proposal values on the sets it returned
                 VectorXd t, q(N);
                 { vf::Entry e("StateModel::getTransitionProbability"); t = sep_trans->getTransitionProbability(pred_copy.state(), corr.state()); }
                 { vf::Entry e("GPFCorrection::evaluateProposal");
                   for (long i = 0; i < N; i++) q(i) = gpf_corr.proposal(corr.state(i), corr.mean(i), corr.covariance(i)); }
                 vf::out_mat("t" + s, t); vf::out_mat("q" + s, q);
+                // the library's square-root factors of the corrected covariances
+                MatrixXd L(n, n * N);
+                { vf::Entry e("GPFCorrection::sampleFromProposal");
+                  for (long i = 0; i < N; i++) L.middleCols(n * i, n) = gpf_corr.observed_sqrt(corr.covariance(i)); }
+                vf::out_mat("L" + s, L);
             }
         }
         vf::out_int("rng_mirror_ok", mirror_ok ? 1 : 0);
